@@ -684,6 +684,13 @@ func (s *Session) routingKeyInfo(ctx context.Context, stmt string) (*routingKeyI
 		return routingKeyInfo, nil
 	}
 
+	if len(info.request.columns) == 0 {
+		inflight.err = fmt.Errorf("gocql: prepared metadata announces %d columns but describes none", info.request.colCount)
+		// don't cache this error
+		s.routingKeyInfoCache.Remove(stmt)
+		return nil, inflight.err
+	}
+
 	var keyspaceMetadata *KeyspaceMetadata
 	keyspaceMetadata, inflight.err = s.KeyspaceMetadata(info.request.columns[0].Keyspace)
 	if inflight.err != nil {
